@@ -211,7 +211,7 @@ def handleNewCid (fixed : Bool) (s : Remote) (seq rpt : Nat) (cid : Cid) : Out R
     let grow := s.insertCost seq
     let c : Cost := ⟨s.cdq.length + grow + s.ready.length + s.pending.length + 1,
                      grow + retireQueued s rpt + allocTotal s⟩
-    match Remote.recvNewCid true s seq rpt cid with
+    match Remote.recvNewCid .counted s seq rpt cid with
     | .errLimit _ => (.err .connectionIdLimit, c)
     | .discarded => (.ok s, Cost.one)
     | .accepted s' => (.ok s', c)
